@@ -51,8 +51,8 @@ def run(ctx: Ctx) -> None:
     fifo_bounds(ctx, py, rs)
     kil_guards(ctx, py, rs)
     keyi_guards(ctx, py, rs)
-    if ctx.tier == "thorough":
-        sibling_skeleton(ctx, py, rs)
+    sibling_skeleton(ctx, py, rs)
+    active_columns_table(ctx, py, rs)
 
 
 # ---------------------------------------------------------------------------
@@ -424,7 +424,15 @@ def sibling_skeleton(ctx: Ctx, py: PyProgram, rs: RustProgram) -> None:
             if k in t:
                 neg = t.startswith("NOT")
                 return ("!" if neg else "") + k
+        if "repeat_interval>0" in t or "repeat_enabled" in t:
+            return ("!" if t.startswith("NOT") else "") + "auto-repeat"
         return None
+
+    def for_field(target: str, gs: tuple) -> tuple:
+        # the auto-repeat switch may only gate the repeat counter: on every other field it is part of the guard that must agree
+        if "repeat_ticks" in target.split("=")[0]:
+            return tuple(x for x in gs if "auto-repeat" not in x)
+        return gs
     pyset = set()
     for st in ast.walk(m):
         tgt = None
@@ -434,7 +442,7 @@ def sibling_skeleton(ctx: Ctx, py: PyProgram, rs: RustProgram) -> None:
             tgt = unparse(st)
         if tgt:
             gs = tuple(x for x in (norm_guard(py_guard_text(q)) for q in g.guards_of(g.node_of(st))) if x)
-            pyset.add((_NORM.get(tgt, tgt), gs))
+            pyset.add((_NORM.get(tgt, tgt), for_field(tgt, gs)))
     fn = rs.fn(KB_RS, "KeyboardMatrix::scan_tick")
     gr = cfgmod.build_rs(fn.node, fn.qual)
     rsset = set()
@@ -445,7 +453,7 @@ def sibling_skeleton(ctx: Ctx, py: PyProgram, rs: RustProgram) -> None:
                 continue
             txt = f"{expr_text(a['l'])} = {expr_text(a['r'])}" if a["k"] == "assign" else f"{expr_text(a['l'])} {a['op']}= {expr_text(a['r'])}"
             gs = tuple(x for x in (norm_guard(rs_guard_text(q)) for q in gr.guards_of(node)) if x)
-            rsset.add((_NORM.get(txt, txt), gs))
+            rsset.add((_NORM.get(txt, txt), for_field(txt, gs)))
     only_py = sorted(pyset - rsset)
     only_rs = sorted(rsset - pyset)
     n = len(pyset | rsset)
@@ -454,3 +462,60 @@ def sibling_skeleton(ctx: Ctx, py: PyProgram, rs: RustProgram) -> None:
     for item in only_rs:
         ctx.violation("C14.4/sibling", key_of(rs.file_for(KB_RS), "scan_tick", f"{item[0]} under {list(item[1])}"), f"debounce automaton: Rust performs `{item[0]}` under {list(item[1])}; Python _update_key_state has no matching guarded assignment", rs.file_for(KB_RS))
     ctx.instance("C14.4/sibling", "guarded state assignments of the debounce automaton, Python vs Rust", n, 10)
+
+
+def active_columns_table(ctx: Ctx, py: PyProgram, rs: RustProgram) -> None:
+    """_active_columns / active_columns evaluated for every strobe value (KOL x KOH low nibble x polarity) by the constant evaluators:
+    column c < COLUMN_COUNT is active iff strobe bit c equals the polarity."""
+    from ..pyfacts import NotConst, Term, _Return
+    from ..rsfacts import RsInterp
+    mod = py.module(KM_PY)
+    ncol = PyEval(py, mod).eval(ast.Name(id="COLUMN_COUNT", ctx=ast.Load()))
+    fn = py.func(KM_PY, "KeyboardMatrix._active_columns")
+    class _It(RsInterp):
+        def call_hook(self, path: str, args: list, env: dict, e: dict) -> Any:
+            if path in ("Vec::new", "Vec::with_capacity"):
+                return []
+            return NotImplemented
+    it = _It(rs, KB_RS)
+    rfn = rs.fn(KB_RS, "KeyboardMatrix::active_columns")
+    n = 0
+    bad_py: list = []
+    bad_rs: list = []
+    for high in (True, False):
+        for koh in range(16):
+            for kol in range(256):
+                n += 1
+                want = [c for c in range(ncol) if (((kol | (koh << 8)) >> c) & 1) == (1 if high else 0)]
+                selfobj = Term("KeyboardMatrix", (), {"kol": kol, "koh": koh, "columns_active_high": high})
+                ev = PyEval(py, mod, {"self": selfobj}, budget=[20000])
+                try:
+                    try:
+                        ev.exec_block(fn.body)
+                        got = None
+                    except _Return as r:
+                        got = r.v
+                except NotConst as e:
+                    raise AnalysisError(f"_active_columns left the evaluable fragment: {e}")
+                got_l = sorted(c for c in (got or []) if c < ncol)
+                if got_l != want and len(bad_py) < 3:
+                    bad_py.append((kol, koh, high, got_l, want))
+                if kol % 17 == 0 or kol in (0, 255):        # the Rust twin on a sample of the same grid (same function shape per bit)
+                    try:
+                        from ..rsfacts import _RsReturn
+                        try:
+                            rg = it.block(rfn.body, {"self": {"__struct__": "KeyboardMatrix", "kol": kol, "koh": koh, "columns_active_high": high}})
+                        except _RsReturn as rr:
+                            rg = rr.v
+                    except Exception as e:  # noqa: BLE001
+                        raise AnalysisError(f"active_columns (Rust) left the evaluable fragment: {e}")
+                    rg_l = sorted(c for c in (rg or []) if c < ncol)
+                    if rg_l != want and len(bad_rs) < 3:
+                        bad_rs.append((kol, koh, high, rg_l, want))
+    for kol, koh, high, got_l, want in bad_py[:1]:
+        ctx.violation("C14.2/active-columns-table", key_of(KM_PY, "KeyboardMatrix._active_columns", "strobe decoding"),
+                      f"_active_columns: with KOL={kol:#04x} KOH={koh:#03x} columns_active_high={high} the strobed columns are {want} but the function returns {got_l}", f"{KM_PY}:{fn.lineno}")
+    for kol, koh, high, got_l, want in bad_rs[:1]:
+        ctx.violation("C14.2/active-columns-table", key_of(rs.file_for(KB_RS), "KeyboardMatrix::active_columns", "strobe decoding"),
+                      f"active_columns (Rust): with KOL={kol:#04x} KOH={koh:#03x} columns_active_high={high} the strobed columns are {want} but the function returns {got_l}", rs.file_for(KB_RS))
+    ctx.instance("C14.2/active-columns-table", "strobe register values x polarity: active column set == bits of KOL | KOH<<8 matching the polarity", n, 8192)
